@@ -784,3 +784,17 @@ Section Recover.
       + inversion Hr; subst r'. exact Ha.
   Qed.
 End Recover.
+
+(* the waiting thread of the theorem above, when it is a thread of the tower: its program is the wait, then
+   the interrupted Carrier call `f` again, then the rest `k` of ConcTower's program; it is calm, and its
+   fault-free run is ConcTower's `exec` of `Act f k` (= the rest of Tower.step, by exec_is_step) *)
+Lemma waiting_carrier_call {B} fuel n (f : tower -> res B) (k : B -> prog out) t :
+  let K := fun b => embedk fuel (k b) (fun x => RRet (RO x)) in
+  let pa0 := RWait (RRel L_reach (RRpc B f (fun a => match a with Verdict b => K b | TransportErr => carrier_retry n f K end))) in
+  calm pa0 /\
+  rsolo pa0 t = match exec (Act B f k) t with Ok o t' => (t', RDone (RO o)) | Abort s t' => (t', RAbort s) end.
+Proof.
+  cbn. split.
+  - intros b. apply calm_embedk. intros; exact I.
+  - destruct (f t) as [b t'|s t']; [|reflexivity]. rewrite rsolo_embedk. destruct (exec (k b) t'); reflexivity.
+Qed.
